@@ -151,6 +151,7 @@ class ScenarioModel(histbfs.Model):
         self.deviations = deviations or {}
         self.app_timeout = app_timeout
         self.prelude = tuple(prelude)       # events applied before the explored history (not branched on)
+        self.policy = None                  # thread kind that runs last (simkernel.World.low_kind); None = lowest id first
 
     def alphabet(self):
         return self._alphabet
@@ -162,6 +163,7 @@ class ScenarioModel(histbfs.Model):
         sc = scenario.Scenario(self.cfg, max_socks=self.max_socks, start_plan=self.start_plan, app_timeout=self.app_timeout)
         try:
             sc.start()
+            sc.nw.world.low_kind = self.policy
             mons = [m(sc) for m in self.monitor_classes]
             vs = []
             for m in mons:
@@ -189,6 +191,20 @@ class ScenarioModel(histbfs.Model):
             return ("livelock", tuple(history)), [("livelock:node-threads-never-reach-quiescence", f"{e}")], None
         finally:
             sc.close()
+
+
+def with_io_last(models):
+    """The models plus a copy of each that runs under the kernel's second deterministic scheduling policy: the node's I/O
+    thread gets the CPU only when no other thread is runnable, so that wake-ups, received segments and queued output pile
+    up for it instead of being consumed one at a time."""
+    import copy as _copy
+    out = list(models)
+    for m in models:
+        c = _copy.copy(m)
+        c.name = m.name + "/io-thread-last"
+        c.policy = "_handle_connections"
+        out.append(c)
+    return out
 
 
 def determinism_selftest(model):
